@@ -38,6 +38,9 @@ CHECKS = {
  "C05": dict(engine="E1-world + rogue toolkit", category="exploration", technique="stateful property-based testing with adversarial commit/proposal generators built directly on OpenMLS, judged by before/after fingerprints against what each event names",
    text="Generated histories mix honest operations with commits and proposals built directly with OpenMLS by admins, non-admins and members that have not yet seen their own removal (add, remove, extension rename, self-promotion, path update, path update with a foreign identity, remove+update, by-reference commit, empty commit; remove/add/extension/update proposals). Every delivery is judged at the receiver: a refused event changes nothing, a proposal changes only the queue, only a self-leave may be auto-committed, a non-admin's accepted commit changes neither roster nor data, an admin's commit changes exactly what the call named, no identity moves at a surviving leaf. Search, not proof.",
    note="Outsiders without any group state cannot build MLS messages (their junk is C06's subject); PSK proposals are not constructible in this setup.", ref="DESIGN.md §4 C05"),
+ "C16": dict(engine="E1 (dedicated invitation world) + rogue toolkit", category="exploration", technique="stateful property-based testing of invitation histories (valid, replayed under new wrapper ids, outsider-built for held group ids / with foreign group data, malformed) with per-call invariants",
+   text="Generated histories over one recipient (memory or SQLite, optionally already in a second group): the admin's valid invitations, outsider-built invitations for a fresh MLS group id or the id of a group the recipient holds, carrying fresh or foreign Nostr group ids, eight kinds of malformed copies; each processed under up to three wrapper ids, repeatedly, accepted / declined / unanswered, interleaved with peer messages, removal, re-invitation and restarts. After every call: same wrapper => same welcome, nothing changes; same rumor under a new wrapper => stored welcome unchanged, nothing created; failed / declined / unanswered => no Active group; accept => inviter's post-commit state, Active, self-update Required and listed; groups Active before are identical after and still store a fresh peer message. Search, not proof.",
+   note="Accepting an outsider's invitation for a group held Active is a listed finding (O29) and excluded from generation; the gift-wrap layer is outside mdk (wrapper ids are harness-chosen).", ref="DESIGN.md §4 C16"),
 }
 
 checks = []
